@@ -8,6 +8,7 @@ BOUNDS = {
     "quick": "Bayes identity fully symbolic for (Dx,Dy) in {(1,1),(2,1),(1,2)}, (2,2) semi-symbolic (two blocks concrete, rotated); round trip fully symbolic at (1,1), one block concrete at (2,1),(1,2); (R_cond,R_x) in {(1,1),(1,2),(2,1)}",
     "thorough": "adds (2,2) with one concrete block, (3,1),(1,3),(2,3),(3,2) semi-symbolic, batches up to 3, round trip at (2,2)",
 }
+ASSUMPTIONS = ["round trips are taken component by component (slices): a batch on both sides is a documented refusal"]
 
 
 def cases(tier, seed=0):
